@@ -32,12 +32,17 @@ fn audit_child(ctx: &mut Ctx, who: &str, mode: &str, rep: &Report, lib: &BTreeSe
     }
     // label by role of the first foreign descriptor
     let mut role = "unknown-pipe".to_string();
+    if bad.iter().all(|b| b.contains("extra copy of its own stream")) {
+        role = "extra-copy-of-own-stream-end".to_string();
+    }
     for f in &rep.fds {
         if f.fd > 2 {
             if let Some(i) = f.pipe_ino() {
                 if lib.contains(&i) {
                     if let Some(r) = roles.get(&i) {
-                        role = r.clone();
+                        if role != "extra-copy-of-own-stream-end" {
+                            role = r.clone();
+                        }
                         break;
                     }
                 }
